@@ -117,7 +117,7 @@ package lexer
 //@   requires ValidUTF8(l.input) && LexInv(l)
 //@   modifies l.ch, l.position, l.readPosition, l.lineNumber, l.prevCharNumber, l.charNumber, l.prevUtf8CharNumber, l.utf8CharNumber
 //@   ensures [C19:inv] LexInv(l) && Advanced(l, old(l.position), old(l.input), old(l.lineNumber))
-//@   ensures [C19:lexeme] result == substr(l.input, old(l.position), l.position)
+//@   ensures [C10,C19:lexeme] result == substr(l.input, old(l.position), l.position)
 //@   ensures [C19:run] SameLineRun(l, old(l.position), LineStart(l.input, old(l.position)), old(l.lineNumber))
 //@   ensures [C18,C19:nonempty] uIsDigit(old(l.ch)) ==> l.position > old(l.position)
 //@   ensures [C19:unmoved] l.position == old(l.position) ==> (l.ch == old(l.ch) && l.prevUtf8CharNumber == old(l.prevUtf8CharNumber) && l.utf8CharNumber == old(l.utf8CharNumber))
@@ -132,7 +132,7 @@ package lexer
 //@   requires ValidUTF8(l.input) && LexInv(l)
 //@   modifies l.ch, l.position, l.readPosition, l.lineNumber, l.prevCharNumber, l.charNumber, l.prevUtf8CharNumber, l.utf8CharNumber
 //@   ensures [C19:inv] LexInv(l) && Advanced(l, old(l.position), old(l.input), old(l.lineNumber))
-//@   ensures [C19:lexeme] result == substr(l.input, old(l.position), l.position)
+//@   ensures [C10,C19:lexeme] result == substr(l.input, old(l.position), l.position)
 //@   ensures [C19:run] SameLineRun(l, old(l.position), LineStart(l.input, old(l.position)), old(l.lineNumber))
 //@   ensures [C19:unmoved] l.position == old(l.position) ==> (l.ch == old(l.ch) && l.prevUtf8CharNumber == old(l.prevUtf8CharNumber) && l.utf8CharNumber == old(l.utf8CharNumber))
 //@   loop 1
